@@ -9,6 +9,11 @@ CONSTANTS ShapeSet,   \* name of the set of partition shapes
 
 Shapes == CASE ShapeSet = "small" -> {<<1>>, <<2>>, <<1, 1>>, <<1, 2>>, <<2, 1>>, <<1, 1, 1>>}
             [] ShapeSet = "medium" -> {<<1>>, <<2>>, <<3>>, <<1, 1>>, <<1, 2>>, <<2, 1>>, <<2, 2>>, <<1, 1, 1>>, <<1, 1, 2>>, <<2, 1, 1>>, <<1, 2, 1>>}
+            \* a partition of three chunks between neighbours, three write credits each (MC_MPU_three.cfg): a middle partition that spills twice and still
+            \* holds data when it is merged
+            [] ShapeSet = "three" -> {<<1, 3, 1>>, <<1, 3, 2>>, <<2, 3, 1>>, <<3, 1>>, <<1, 3>>, <<1, 2, 1>>}
+            \* several partitions smaller than the minimum part size in front of one that writes (MC_MPU_tiny.cfg): left data handed leftwards more than once
+            [] ShapeSet = "tiny" -> {<<1, 1, 2>>, <<1, 1, 1>>, <<1, 1, 1, 1>>, <<1, 1, 1, 2>>}
             [] ShapeSet = "four" -> {<<1, 1, 1, 1>>, <<1, 1, 1, 2>>, <<2, 1, 1, 1>>, <<1, 2, 1, 1>>}
             [] ShapeSet = "five" -> {<<1, 1, 1, 1, 1>>}
             \* 6 - 8 partitions: too wide for exhaustive search, explored by simulation (MC_MPU_wide.cfg)
